@@ -559,6 +559,7 @@ func (f *Frame) applyContract(st *State, in ssa.Instruction, ct *Contract, sig *
 		}
 	}
 	// modifies
+	var byHeapDone []string
 	if ct.ModAll {
 		if !vc.allowAll && vc.entry != nil {
 			vc.oblige(st, "frame", anchor+":*", False, vc.frameProps(), "callee "+name+" modifies *", posOf(in))
@@ -599,12 +600,16 @@ func (f *Frame) applyContract(st *State, in ssa.Instruction, ct *Contract, sig *
 			if strings.HasPrefix(hn, "Mv_") {
 				vc.mapWF(st, hn)
 			}
+			byHeapDone = append(byHeapDone, hn)
 		}
 	}
 	if !ct.Pure || ct.Allocates {
 		ntop := vc.freshConst("top", SInt)
 		vc.assumeIn(st, Le(st.top, ntop))
 		st.top = ntop
+		for _, hn := range byHeapDone {
+			vc.storedRefsAllocated(hn, st.heaps[hn], ntop)
+		}
 		// objects the callee may have allocated: their liveness is unknown to the caller unless ensured
 		at := map[string]types.Type{}
 		if fn != nil && vc.p.inModule(fn) {
